@@ -31,15 +31,15 @@ def _runs(tier):
         return runs
     for p in _EXACT:
         for r in range(5):
-            runs.append(_run(p, r, 3, "1,2", 2400))
+            runs.append(_run(p, r, 3, "1,2", 600))
     for p in _GRID:
         for r in range(5):
-            runs.append(_run(p, r, 2, "1,2", 2400))
+            runs.append(_run(p, r, 2, "1,2", 600))
     return runs
 
 CHECKS = {
     "C10": {"runs": _runs, "level": "model_checking", "parallel_runs": 8,
-            "deadline": {"quick": 290, "thorough": 2600},
+            "deadline": {"quick": 290, "thorough": 2700},
             "assumptions": [
                 "the component domains are trusted to describe their own point sets: gamma(d1), gamma(d2) are read from the members d1, d2 (constraints(), congruences()) without going through the reducing accessors",
                 "pairs with a Grid component are judged on a finite window of rational points k/6 (direct evaluation of the printed constraints and congruences), the other pairs exactly",
